@@ -12,7 +12,7 @@ def same(a, b):
 
 
 def extract(g, X):
-    src = X.strip_comments(X.read("pdf/src/crypt.rs"))
+    src = X.source("pdf/src/crypt.rs")
 
     def padding():
         m = re.search(r"const\s+PADDING\s*:\s*\[u8;\s*(\d+)\]\s*=\s*\[([^\]]*)\]", src)
@@ -52,13 +52,12 @@ def extract(g, X):
 
     def owner_rounds():
         # `let rounds = if level == 2 { 1 } else { 20 };` (either polarity, or a match): evaluated for level = 2 .. 6
-        lvar = re.search(r"let\s+(\w+)\s*=\s*\w+\.r\s*;", fp).group(1)
-        init = None
+        init = lvar = None
         for m in re.finditer(r"let\s+(\w+)\s*(?::\s*\w+)?\s*=\s*(?=if\b|match\b)", fp):
             cand = X.let_expr(fp[m.start():], m.group(1)) or ""
-            head = cand.split("{")[0]
-            if re.search(r"(?<![\w.])" + lvar + r"(?!\w)", head) and re.fullmatch(r"(?:if|match)\s+[^{]*\{\s*[^{}]*\}\s*(?:else\s*\{[^{}]*\})?", cand.strip()) and re.search(X.BYTE, cand):
-                init = cand
+            hm = re.match(r"(?:if|match)\s+(\w+)\b[^{]*\{\s*[^{}]*\}\s*(?:else\s*\{[^{}]*\})?\s*$", cand.strip())
+            if hm and len(re.findall(X.BYTE, cand)) >= 3 and re.search(r"\bfor\s+\w+\s+in\s+0\s*\.\.\s*" + m.group(1) + r"\b", fp):
+                init, lvar = cand, hm.group(1)              # `let rounds = if <revision> == 2 { 1 } else { 20 }; for _ in 0..rounds`
                 break
         t = {k: o.value for k, o in X.tabulate(init, lvar, src, scopes=[fp], domain=range(2, 7)).items()}
         special = [k for k in t if list(t.values()).count(t[k]) == 1]
@@ -93,6 +92,14 @@ def extract(g, X):
         ul = re.search(r"let\s+(\w+)\s*=\s*\w+\.u\.as_bytes\(\);\s*if\s+\1\.len\(\)\s*!=\s*(\d+)", fp)
         ol = re.search(r"let\s+(\w+)\s*=\s*\w+\.o\.as_bytes\(\);\s*if\s+\1\.len\(\)\s*!=\s*(\d+)", fp)
         tr = re.search(r"if\s+(\w+)\.len\(\)\s*>\s*(\d+)\s*\{\s*\1\s*=\s*&\1\[\.\.(\d+)\]", fp)
+        if not tr:
+            # the same truncation as a slice up to min(len, N): `&p[..p.len().min(N)]` (any spelling of min)
+            caps = []
+            for mm in re.finditer(r"&(\w+)\[\s*\.\.\s*([^\]]+)\]", fp):
+                caps += [c for _, c in X.min_consts(mm.group(2), re.escape(mm.group(1)) + r"\.len\(\)")]
+            if len(caps) != 1:
+                raise ValueError("password truncation: %r" % (caps,))
+            tr = re.match(r"(x)(\d+) (\d+)", "x%d %d" % (caps[0], caps[0]))
         return (v1.group(1), v1.group(2), v2.group(1), v2.group(2), v4.group(1), v4.group(2), v5.group(1), lv.group(1), lv.group(2),
                 rc.group(1), ul.group(2), ol.group(2), same(tr.group(2), tr.group(3)))
     g.attempt([("crypt_v_rc4_40", "N"), ("crypt_bits_40", "N"), ("crypt_v_rc4", "N"), ("crypt_bits_mod", "N"), ("crypt_v_cf_lo", "N"),
@@ -126,7 +133,7 @@ def extract(g, X):
         b = X.fn_body(src, "revision_6_kdf")
         w = re.search(r"while\s+(\w+)\s*<\s*(\d+)\s*\|\|\s*\1\s*<\s*\w+\[\w+\s*-\s*1\]\s*as\s+usize\s*\+\s*(\d+)", b)
         rep = re.search(r"for\s+\w+\s+in\s+1\s*\.\.\s*(\d+)", b)
-        bs = re.search(r"let\s+(\w+)\s*:\s*usize\s*=\s*\w+\[\.\.(\d+)\]\.iter\(\)\.map\(\|\w+\|\s*\*\w+\s+as\s+usize\)\.sum\(\);\s*\w+\s*=\s*\1\s*%\s*(\d+)\s*\*\s*(\d+)\s*\+\s*(\d+)", b, flags=re.S)
+        bs = re.search(r"let\s+(\w+)\s*:\s*usize\s*=\s*\w+\[\.\.(\d+)\]\.iter\(\)(?:\.copied\(\))?\.map\((?:[^()]|\([^()]*\))*\)\.sum(?:::<usize>)?\(\);\s*\w+\s*=\s*\1\s*%\s*(\d+)\s*\*\s*(\d+)\s*\+\s*(\d+)", b, flags=re.S)
         # block size -> hash: integer patterns are disjoint, the order of the arms is immaterial
         arms = []
         bs_var = re.search(r"\bmatch\s+(\w+)\s*\{\s*\d+\s*=>", b).group(1)
